@@ -49,9 +49,15 @@ type c06Scenario struct {
 	Limit         int `json:"limit"` // aggregation group limit (0 = none); with two group keys a limit of 3 must never bind (the count includes destroyed groups awaiting the sweep, at most one per key)
 	// Muted: the route carries a mute time interval that always matches, the pipeline starts with the real
 	// TimeActiveStage/TimeMuteStage: every flush is muted and must leave the group marked as muted (C15Schedule)
-	Muted bool      `json:"muted,omitempty"`
-	Park  []string  `json:"park"` // hook points at which goroutines park
-	Steps []c06Step `json:"steps"`
+	Muted bool `json:"muted,omitempty"`
+	// StartDelay > 0: the dispatcher is started with a start time that many seconds ahead (as cmd/alertmanager does
+	// while the cluster settles): groups are created but only run from the start instant on (C01StartSchedule)
+	StartDelay int `json:"start_delay,omitempty"`
+	// PreStart: puts made before the dispatcher is started; it finds them in the provider's snapshot (as the new
+	// dispatcher of a configuration reload does) while later updates reach it over the subscription (C14Restart)
+	PreStart []c06Step `json:"pre_start,omitempty"`
+	Park     []string  `json:"park"` // hook points at which goroutines park
+	Steps    []c06Step `json:"steps"`
 }
 
 var c06Points = []string{"group.loaded", "group.created", "maint.destroyed", "maint.deleted", "flush.notified"}
@@ -92,6 +98,7 @@ type c06Parked struct {
 	seq   int
 	point string
 	gate  chan struct{}
+	at    time.Time
 }
 
 type c06Delivery struct {
@@ -101,7 +108,7 @@ type c06Delivery struct {
 }
 
 func execC06(sc c06Scenario) (res pbt.Result) {
-	overlap, recreated := false, false
+	overlap, recreated, acrossStart, snapshotParked := false, false, false, false
 	synctest.Test(pbt.T(), func(*testing.T) {
 		ctx, cancel := context.WithCancel(context.Background())
 		defer cancel()
@@ -146,6 +153,7 @@ func execC06(sc c06Scenario) (res pbt.Result) {
 			parkAt[p] = true
 		}
 		var mtx sync.Mutex
+		var dispStart time.Time // set before the dispatcher runs
 		var parked []*c06Parked
 		seq := 0
 		draining := false
@@ -163,15 +171,50 @@ func execC06(sc c06Scenario) (res pbt.Result) {
 				mtx.Unlock()
 				return
 			}
-			p := &c06Parked{seq: seq, point: name, gate: make(chan struct{})}
+			if al, ok := arg.(*alert.Alert); ok && name == "group.loaded" && !dispStart.IsZero() && al.UpdatedAt.Before(dispStart) {
+				snapshotParked = true
+			}
+			p := &c06Parked{seq: seq, point: name, gate: make(chan struct{}), at: time.Now()}
 			seq++
 			parked = append(parked, p)
 			mtx.Unlock()
 			<-p.gate
 		})
 		defer verifhook.Set(nil)
-		go disp.Run(time.Now())
-		disp.WaitForLoading()
+		lastPut := map[model.Fingerprint]time.Time{}
+		put := func(st c06Step, i int) {
+			now := time.Now()
+			a := "x"
+			if st.Group2 {
+				a = "y"
+			}
+			al := &alert.Alert{Alert: model.Alert{Labels: model.LabelSet{"a": model.LabelValue(a), "i": model.LabelValue(fmt.Sprint(st.Alert))},
+				StartsAt: now, EndsAt: now.Add(time.Duration(st.EndOff) * time.Second)}, UpdatedAt: now}
+			if st.EndOff < 0 {
+				al.StartsAt = al.EndsAt.Add(-time.Second)
+			}
+			if err := alerts.Put(ctx, al); err != nil {
+				res.Fail("harness", "Put: %v", err)
+			}
+			lastPut[al.Fingerprint()] = now
+		}
+		for i, st := range sc.PreStart {
+			time.Sleep(time.Millisecond)
+			put(st, i)
+		}
+		if len(sc.PreStart) > 0 {
+			time.Sleep(time.Millisecond)
+		}
+		mtx.Lock()
+		dispStart = time.Now()
+		mtx.Unlock()
+		startAt := dispStart.Add(time.Duration(sc.StartDelay) * time.Second)
+		go disp.Run(startAt)
+		if len(sc.PreStart) == 0 {
+			disp.WaitForLoading()
+		}
+		// (with a snapshot to route, the goroutine routing it may be parked at a hook point: Run has not finished
+		// loading until the scenario releases it)
 		synctest.Wait()
 
 		release := func(choice int) bool {
@@ -194,26 +237,12 @@ func execC06(sc c06Scenario) (res pbt.Result) {
 			p := parked[idx]
 			parked = append(parked[:idx], parked[idx+1:]...)
 			mtx.Unlock()
+			if sc.StartDelay > 0 && (p.point == "group.loaded" || p.point == "group.created") && p.at.Before(startAt) && !time.Now().Before(startAt) {
+				acrossStart = true
+			}
 			close(p.gate)
 			synctest.Wait()
 			return true
-		}
-		lastPut := map[model.Fingerprint]time.Time{}
-		put := func(st c06Step, i int) {
-			now := time.Now()
-			a := "x"
-			if st.Group2 {
-				a = "y"
-			}
-			al := &alert.Alert{Alert: model.Alert{Labels: model.LabelSet{"a": model.LabelValue(a), "i": model.LabelValue(fmt.Sprint(st.Alert))},
-				StartsAt: now, EndsAt: now.Add(time.Duration(st.EndOff) * time.Second)}, UpdatedAt: now}
-			if st.EndOff < 0 {
-				al.StartsAt = al.EndsAt.Add(-time.Second)
-			}
-			if err := alerts.Put(ctx, al); err != nil {
-				res.Fail("harness", "Put: %v", err)
-			}
-			lastPut[al.Fingerprint()] = now
 		}
 		for i, st := range sc.Steps {
 			time.Sleep(time.Millisecond)
@@ -262,7 +291,7 @@ func execC06(sc c06Scenario) (res pbt.Result) {
 		}
 		checkMuted("right after everything was released")
 		// let every group flush and the maintenance sweep run
-		settle := time.Duration(sc.GroupWait+sc.GroupInterval+2) * time.Second
+		settle := time.Duration(sc.GroupWait+sc.GroupInterval+2+sc.StartDelay) * time.Second
 		drainAt := time.Now()
 		time.Sleep(settle)
 		synctest.Wait()
@@ -353,7 +382,8 @@ func execC06(sc c06Scenario) (res pbt.Result) {
 					// facts: the listed version is an older submission (not a corrupted one), and the group that
 					// holds it is a regular member of the dispatcher's map (listed by Groups() after settling)
 					res.Add(pbt.V("stale-firing-notification", "a notification at %s lists %v as firing although the last submitted version ended at %s (more than group_interval earlier) and every goroutine had been released by %s", d.at.Format("15:04:05.000"), a.Labels, a.EndsAt.Format("15:04:05.000"), drainAt.Format("15:04:05.000")).
-						With("older_version_listed", d.upd[fp].Before(a.UpdatedAt)).With("holding_group_listed", len(where[fp]) > 0))
+						With("older_version_listed", d.upd[fp].Before(a.UpdatedAt)).With("holding_group_listed", len(where[fp]) > 0).
+						With("listed_version_from_snapshot", d.upd[fp].Before(dispStart)))
 				}
 			}
 		}
@@ -367,6 +397,12 @@ func execC06(sc c06Scenario) (res pbt.Result) {
 	}
 	if recreated {
 		res.Class("several-groups")
+	}
+	if acrossStart {
+		res.Class("creator-parked-across-start")
+	}
+	if snapshotParked {
+		res.Class("snapshot-version-parked")
 	}
 	for _, p := range sc.Park {
 		res.Class("park:" + p)
